@@ -45,8 +45,14 @@ fn truncate_str_impl<'a>(
     };
     let mut used = measure_text_width(&result_tail);
     let mut result = String::new();
+    // Once the width is used up no further text is taken, from this or any later text segment
+    // (escape sequences are still copied, so that styles are closed properly).
+    let mut width_used_up = false;
     for (t, is_ansi) in items {
         if !is_ansi {
+            if width_used_up {
+                continue;
+            }
             for g in t.graphemes(true) {
                 let width_of_grapheme = g.width();
                 if used + width_of_grapheme > display_width {
@@ -55,6 +61,7 @@ fn truncate_str_impl<'a>(
                     if let Some(fillchar) = fill2w {
                         if width_of_grapheme == 2 && used < display_width {
                             result.push(fillchar);
+                            used += 1;
                         } else if width_of_grapheme > 2 {
                             // Should not happen, this means either unicode_segmentation
                             // graphemes are too wide, or the unicode_width is calculated wrong.
@@ -65,6 +72,7 @@ fn truncate_str_impl<'a>(
                             }
                         }
                     }
+                    width_used_up = true;
                     break;
                 }
                 result.push_str(g);
